@@ -228,10 +228,26 @@ func VerifC20Sequential() {
 		op := verifOps[verifPick("op", 0, len(verifOps)-1)]
 		if op == "TransitionObjectStorageClass" {
 			mw.TransitionObjectStorageClass(verifBg, args.bucket, args.key, []string{"GLACIER", "STANDARD_IA"}[s%2], nil)
+		} else if op == "CopyObject" {
+			// the copy's destination is the observed key; the source is in the
+			// same or in another bucket
+			src := args.bucket
+			if verifBool("cross-bucket-copy") {
+				src = storage.MustNewBucketName("bucket-2")
+			}
+			mw.CopyObject(verifBg, src, storage.MustNewObjectKey("src"), args.bucket, args.key, nil)
 		} else {
 			verifInvoke(mw, verifMethodIndex(op), args)
 		}
 		verifCover("step")
+		if verifBool("aborted-download") {
+			// a client reads part of the body and goes away
+			if _, readers, err := mw.GetObject(verifBg, args.bucket, args.key, nil, nil); err == nil && len(readers) == 1 {
+				one := make([]byte, 1)
+				readers[0].Read(one)
+				readers[0].Close()
+			}
+		}
 		verifTransparent(mw, inner, r, args)
 	}
 }
